@@ -1,5 +1,6 @@
 import QcoVerif.Lemmas.C10Timing
 import QcoVerif.Lemmas.Graph
+import QcoVerif.Generated.ClassTable
 /-
   C01 — relation-based timing: every operation sits where its relation says.
 
@@ -362,6 +363,27 @@ theorem add_explicit_kept (w : World) (g : List Entry) (o r : Nat)
     w.addToGraph g o = (w, attach g (some r) o) := by
   unfold World.addToGraph
   simp only [hrel, href, hin, Bool.not_true, Bool.false_eq_true, if_false, if_true]
+
+/-! ### the per-class inputs of the schedule ARE what the live classes say (regenerated on every run) -/
+
+def durCode : Dur → String
+  | .fixed d => s!"f{d}" | .reg k => s!"r{k}" | .decoupling => "d"
+  | .glob .ro => "gR" | .glob .mw => "gM" | .glob .fl => "gF" | .glob .rs => "gS"
+
+def chanCode : Chan → String
+  | .all => "A" | .ro => "R" | .mw => "M" | .fl => "F"
+
+def classRow (c : Cls) : String × String × List (Int × String) × List (Int × String) :=
+  (c.name, durCode c.defaultDur,
+   (({ cls := c, qs := [7, 9], chan := .fl } : Op).leafChans.map fun x => (x.q, chanCode x.c)),
+   (({ cls := c, qs := [3, 1], chan := .ro } : Op).leafChans.map fun x => (x.q, chanCode x.c)))
+
+/-- **default durations and channel identifiers of the model are those of the live classes**: `Gen.classTable` is read
+    from probe instances of the 26 leaf classes on every run (default `duration_strategy`, `channel_identifiers` of two
+    probes); `Cls.defaultDur` and `Op.leafChans` reproduce it.  These decide every duration, the channel sharing of the
+    implicit placement and the double-booking predicate of C10. -/
+theorem class_table_matches_source :
+    Gen.classTable = (Cls.all.filter (fun c => c != .comp)).map classRow := by decide +kernel
 
 /-- non-vacuity of `Sol`/`schedule_unique`: the heap "Rx180(q0); Wait(q0, 2.0) FOLLOWED_BY it" and its schedule. -/
 def exWorld : World :=
